@@ -183,7 +183,7 @@ def check(ctx: Ctx) -> None:
         for cname in repo.io_implementors("IO"):
             ci = repo.cls(cname)
             if "write" in ci.methods:
-                w = ci.methods["write"]
+                w = repo.flat(ci.methods["write"])
                 for n in repo.own_nodes(w):
                     if isinstance(n, ast.Raise) and n.exc is not None and unparse(n.exc).split("(")[0] not in ("OSError", "ValueError", "IOError", "BrokenPipeError"):
                         ob.violation(w, n, f"{cname}.write raises {unparse(n.exc).split('(')[0]}, which _send does not map to OSError")
@@ -243,7 +243,7 @@ def check(ctx: Ctx) -> None:
         for cname in repo.io_implementors("IO") + ["ChannelFileRead"]:
             ci = repo.classes.get(cname)
             if ci is not None and "read" in ci.methods:
-                sites += [(ci.methods["read"], n) for n in repo.own_nodes(ci.methods["read"]) if isinstance(n, ast.Raise)]
+                sites += [(repo.flat(ci.methods["read"]), n) for n in repo.own_nodes(repo.flat(ci.methods["read"])) if isinstance(n, ast.Raise)]
         sites += [(f_from, n) for n in repo.own_nodes(f_from) if isinstance(n, ast.Raise) and any(isinstance(a, ast.Try) and any(n is x or n in ast.walk(x) for x in a.body) for a in repo.ancestors(n))]
         for fi, n in sites:
             if n.exc is None:
